@@ -838,12 +838,186 @@ def r9_deleted_filter_scope(ctx, rule_id='R-C01.9'):
     ctx.floor('uses of the deleted-column filter in to_sql', n_filters, 2)
 
 
+def r10_quoted_identifiers(ctx, rule_id='R-C01.10'):
+    """A quoted identifier that stands for a *column* in generated SQL must
+    come from Field.column: qn(<field>.name) / qn(<field>.attname) is the
+    Python-side name and differs for db_column fields, relation fields
+    (x_id) and multi-table-inheritance parents (x_ptr_id).  Names of
+    indexes, constraints and tables are not field attributes and are not
+    affected."""
+    ctx.rule(rule_id)
+    p = ctx.program
+    n = 0
+    for m in p.modules.values():
+        if '.db.' not in m.name or m.name.endswith(('.state', '.sql_result')):
+            continue
+        for f in m.all_funcs():
+            for c in walk_no_nested(f.node, include_lambda=True):
+                if not (isinstance(c, ast.Call) and len(c.args) == 1 and
+                        ((isinstance(c.func, ast.Name) and c.func.id == 'qn')
+                         or call_name(c) == 'quote_name')):
+                    continue
+                a = c.args[0]
+                if not isinstance(a, ast.Attribute):
+                    continue
+                n += 1
+                txt = unparse(a.value)
+                fieldish = txt.endswith(('field', '.pk', '_pk')) or \
+                    txt in ('f', 'pk') or 'field' in txt.split('.')[-1]
+                if a.attr in ('name', 'attname') and fieldish:
+                    ctx.finding(f, c, 'the SQL identifier %s is the Python '
+                                'name of a field, not its column: wrong for '
+                                'db_column fields, relation fields and '
+                                'multi-table-inheritance parent links' %
+                                unparse(c), key='identifier-from-field-name:%s'
+                                % unparse(a))
+                else:
+                    ctx.ok(f, 'quoted identifier %s' % unparse(a), c)
+    ctx.floor('quoted attribute identifiers in db/', n, 10)
+
+
+def r11_sibling_return_order(ctx, rule_id='R-C01.11'):
+    """SQLiteAlterTableSQLResult.to_sql has two normal exits (no rebuild /
+    rebuild).  Both concatenate the same four parts - pre_sql, the SQL
+    generated here (indexes), the SQL queued by the operations (self.sql,
+    e.g. RENAME COLUMN) and post_sql.  The generated index SQL is built from
+    the *old* column names, so it has to run before the queued SQL in both;
+    two exits that order the same parts differently contradict each
+    other."""
+    ctx.rule(rule_id)
+    p = ctx.program
+    f = p.func('db.sqlite3', 'SQLiteAlterTableSQLResult.to_sql')
+    orders = []
+    for r in walk_no_nested(f.node):
+        if not (isinstance(r, ast.Return) and r.value is not None):
+            continue
+        parts = []
+
+        def flat(e):
+            if isinstance(e, ast.BinOp) and isinstance(e.op, ast.Add):
+                flat(e.left)
+                flat(e.right)
+            else:
+                parts.append(unparse(e))
+        flat(r.value)
+        if len(parts) >= 3:
+            orders.append((r, parts))
+    ctx.floor('concatenating returns in to_sql', len(orders), 2)
+    ref = orders[-1][1]
+    for r, parts in orders[:-1]:
+        common = [x for x in parts if x in ref]
+        if common == [x for x in ref if x in parts]:
+            ctx.ok(f, 'both exits concatenate %s in the same order' %
+                   ', '.join(common), r)
+        else:
+            ctx.finding(f, r, 'this exit returns %s while the rebuild exit '
+                        'returns %s: the generated index SQL (old column '
+                        'names) runs after the queued SQL (which may rename '
+                        'the column) on one path and before it on the other'
+                        % (' + '.join(parts), ' + '.join(ref)),
+                        key='return-order-disagrees')
+
+
+def r12_state_tracks_indexes_only(ctx, rule_id='R-C01.12'):
+    """DatabaseState answers "is there an index on these columns?".  It is
+    filled from Django's introspection (get_constraints), which also lists
+    primary keys, foreign keys and CHECK constraints as entries with
+    index=False, unique=False.  The scanner must filter on the constraint
+    kind, otherwise find_index(columns=[fk_col]) hits the pseudo entry and
+    ChangeField(db_index=True) on a ForeignKey / PositiveIntegerField
+    generates no SQL (or a DROP INDEX of a constraint name)."""
+    ctx.rule(rule_id)
+    p = ctx.program
+    f = p.func(COMMON, 'BaseEvolutionOperations.get_constraints_for_table')
+    g = ctx.cfg(f)
+    stores = [n for n in g.nodes if n.kind == 'stmt' and
+              isinstance(n.ast, ast.Assign) and any(
+                  isinstance(t, ast.Subscript) for t in n.ast.targets) and
+              isinstance(n.ast.value, ast.Dict) and
+              'columns' in dict_literal_keys(n.ast.value)]
+    ctx.floor('entries produced by get_constraints_for_table', len(stores), 1)
+    from ..flow import ReachingDefs
+    from ..util import for_heads, loop_body_ids
+    rd = ReachingDefs(g, f.params)
+    for n in stores:
+        heads = [h for h in for_heads(g) if n.id in loop_body_ids(g, h)]
+        from_constraints = any(
+            'get_constraints' in unparse(oe)
+            for h in heads for _on, oe in rd.origins(h, h.ast.iter))
+        if not from_constraints:
+            ctx.ok(f, 'entries taken from an index-only source', n.ast)
+            continue
+        kind_tests = [t for t in g.nodes if t.kind in ('test', 'operand')
+                      and any(const_str(x) in ('index', 'unique',
+                                               'primary_key', 'foreign_key',
+                                               'check')
+                              for x in ast.walk(t.ast))]
+        tests = []
+        for label in ('T', 'F'):
+            drop = {(t.id, label) for t in kind_tests}
+            if kind_tests and n.id not in g.reachable(
+                    [g.entry], follow_exc=True, drop_edges=drop):
+                tests = kind_tests
+        if tests:
+            ctx.ok(f, 'scanned constraints are filtered by kind (%s)' %
+                   ' / '.join(sorted({unparse(t.ast) for t in tests})), n.ast)
+        else:
+            ctx.finding(f, n.ast, 'every entry of get_constraints() is '
+                        'recorded as an index, including primary keys, '
+                        'foreign keys and CHECK constraints (index=False, '
+                        'unique=False): a later find_index(columns=...) '
+                        'mistakes them for an existing index',
+                        key='state-records-non-indexes')
+
+
+def r13_deleted_column_forgotten(ctx, rule_id='R-C01.13'):
+    """Dropping a column drops the indexes on it.  The delete_column branch
+    of generate_table_op_sql (or the handler it calls) must tell the
+    database state, otherwise re-adding an indexed column of the same name
+    in the same run fails with "This index already exists"."""
+    ctx.rule(rule_id)
+    p = ctx.program
+    consumer = p.func(COMMON, 'BaseEvolutionOperations.generate_table_op_sql')
+    chain, _e = _dispatch_chain(consumer, 'op_type')
+    body = dict(chain).get('delete_column')
+    if body is None:
+        raise AnalysisError('%s: no delete_column branch' % rule_id)
+    funcs = [consumer]
+    eff = sqlite_effective_methods(ctx)
+    if 'delete_column' in eff:
+        funcs.append(eff['delete_column'])
+    found = False
+    for st in body:
+        for c in ast.walk(st):
+            if isinstance(c, ast.Call) and 'database_state' in unparse(c.func) \
+                    and call_name(c).startswith(('remove', 'clear', 'delete')):
+                found = True
+    for fn in funcs[1:]:
+        for c in walk_no_nested(fn.node):
+            if isinstance(c, ast.Call) and 'database_state' in unparse(c.func) \
+                    and call_name(c).startswith(('remove', 'clear', 'delete')):
+                found = True
+    if found:
+        ctx.ok(consumer, 'deleting a column removes its indexes from the '
+               'database state', body[0])
+    else:
+        ctx.finding(consumer, body[0], 'the delete_column operation never '
+                    'updates the database state: indexes on the dropped '
+                    'column stay recorded (DeleteField x, AddField x '
+                    'db_index=True fails with "This index already exists")',
+                    key='deleted-column-indexes-stay')
+
+
 def r7_optimiser_identity(ctx):
     from .c03 import r7_identity_membership
     r7_identity_membership(ctx, rule_id='R-C01.7')
 
 
 def run(ctx):
+    r12_state_tracks_indexes_only(ctx)
+    r13_deleted_column_forgotten(ctx)
+    r10_quoted_identifiers(ctx)
+    r11_sibling_return_order(ctx)
     r9_deleted_filter_scope(ctx)
     r8_index_state_reaches_rebuild(ctx)
     r7_optimiser_identity(ctx)
